@@ -94,7 +94,8 @@ def config_features(cfg: dict) -> dict:
             "slots": any(l["hw"] is None for d in deps for l in d["locs"])}
 
 
-def gen_config(rng, *, decimal=False, allow_shared=True, allow_slots=True, max_deps=3, allow_hetero=True) -> dict:
+def gen_config(rng, *, decimal=False, allow_shared=True, allow_slots=True, max_deps=3, allow_hetero=True,
+               probe_failures=True) -> dict:
     """1..3 deployments x 1..3 locations, hardware or slots, wrappers stacked on earlier deployments"""
     q = (lambda k: k / 4) if not decimal else (lambda k: k / 10)
     deps = []
@@ -176,6 +177,13 @@ def gen_config(rng, *, decimal=False, allow_shared=True, allow_slots=True, max_d
                         if rng.random() < 0.6:
                             tbl[p] = rng.choice([0, 256, 512, 1024, 3072]) * 1024
         sizes[d["name"]] = tbl
+    # in some configurations the disk-usage probe (`find … | awk` of remotepath._size) fails for one path of one
+    # deployment: get_storage_usages raises and _free_resources must still release the job (usage = Hardware())
+    if probe_failures and rng.random() < 0.3:
+        d = rng.choice(deps)
+        cands = sorted({p for l in d["locs"] if l["hw"] for st in l["hw"]["storage"] for p in st[3]})
+        if cands:
+            sizes[d["name"]][rng.choice(cands)] = -1
     targets = []
     for d in deps:
         n = len(d["locs"])
@@ -202,6 +210,22 @@ def gen_req(rng, cfg, decimal=False) -> dict:
 # ------------------------------------------------------------------------------------------------
 # the real side
 # ------------------------------------------------------------------------------------------------
+def make_token(v):
+    """JSON description of a job input -> token: scalars as they are, {"kind": "file"|"list"|"object"} for the token
+    classes the matching filter rejects"""
+    if isinstance(v, dict) and "kind" in v:
+        from streamflow.workflow.token import FileToken, ListToken, ObjectToken
+        if v["kind"] == "file":
+            class _File(FileToken):
+                async def get_paths(self, context):
+                    return []
+            return _File(value="/some/file")
+        if v["kind"] == "list":
+            return ListToken(value=[Token("a")])
+        return ObjectToken(value={"k": Token("a")})
+    return Token(v)
+
+
 class _RecordingScheduler(DefaultScheduler):
     """records allocations; behaviour is entirely DefaultScheduler's"""
 
@@ -246,6 +270,7 @@ class World:
         self.tasks: dict[int, asyncio.Task] = {}  # request id -> schedule task
         self.requests: dict[int, dict] = {}
         self.true_req: dict[tuple[str, str], dict] = {}   # (job name, top location) -> {(dep, loc): Hardware}
+        self.suspend_rng = None                           # when set, connectors suspend a few times inside a pass
 
     # ---- static structure ---------------------------------------------------------------------
     def chain(self, loc_name: str) -> list[dict]:
@@ -304,7 +329,7 @@ class World:
     def make_job(self, jid: int, step: int, tag: str, req: dict, inputs: dict | None = None) -> Job:
         name = f"/s{step}/{tag}"
         self.jobs[name] = {"id": jid, "step": step, "tag": tag, "req": req}
-        return Job(name=name, workflow_id=0, inputs={k: Token(v) for k, v in (inputs or {}).items()},
+        return Job(name=name, workflow_id=0, inputs={k: make_token(v) for k, v in (inputs or {}).items()},
                    input_directory="/w/in", output_directory="/w/out", tmp_directory="/w/tmp")
 
     async def compute_true_reqs(self, job: Job, req: Hardware, target_ids: list[int]) -> None:
@@ -322,7 +347,9 @@ class World:
     async def schedule(self, rid: int, job: Job, req: dict, target_ids: list[int], filters=None) -> None:
         hw = load_hw(req)
         await self.compute_true_reqs(job, hw, target_ids)
-        binding = BindingConfig(targets=[self.targets[i] for i in target_ids], filters=filters or [])
+        from streamflow.core.deployment import FilterConfig
+        fcs = [FilterConfig(name=f["name"], type=f["type"], config=f["config"]) for f in (filters or [])]
+        binding = BindingConfig(targets=[self.targets[i] for i in target_ids], filters=fcs)
         self.requests[rid] = {"job": job.name, "targets": target_ids, "req": req, "done": False, "error": None}
 
         async def run():
@@ -521,6 +548,9 @@ class _LoggingConnector(FakeConnector):
         fl = None if _sfv_quiet else _process_target_frame()
         if fl is not None and fl["target"].deployment.name == self.deployment_name:
             self._world.on_pass(fl["job_context"].job.name, fl["target"])
+            if self._world.suspend_rng is not None:
+                for _ in range(self._world.suspend_rng.randint(0, 2)):
+                    await asyncio.sleep(0)     # a real connector suspends here, holding the scheduler lock
         return await super().get_available_locations(service)
 
 
@@ -568,7 +598,10 @@ def config_lines(world: World) -> list[str]:
                     lines.append(f"tr {nm.id(bind)} {nm.id(mp)} {nm.id(p)} {nm.id(out)}")
     for dep, tbl in cfg["sizes"].items():
         for p, b in tbl.items():
-            lines.append(f"size {nm.id(dep)} {nm.id(p)} {rat(Fraction(b, 2 ** 20))}")
+            if b < 0:
+                lines.append(f"fail {nm.id(dep)} {nm.id(p)}")        # scripted failure of the disk-usage probe
+            else:
+                lines.append(f"size {nm.id(dep)} {nm.id(p)} {rat(Fraction(b, 2 ** 20))}")
     stack_ids = {}
     for d in cfg["deployments"]:
         for l in d["locs"]:
@@ -639,11 +672,15 @@ def compare(world: World, outs: list[str], evs: list[dict]) -> list[tuple[str, s
 # ------------------------------------------------------------------------------------------------
 # scenario runner
 # ------------------------------------------------------------------------------------------------
-def run_scenario(cfg: dict, ops, seed: int, timeout: float = 30.0, names: Names | None = None):
+def run_scenario(cfg: dict, ops, seed: int, timeout: float = 30.0, names: Names | None = None, shuffle: bool = True,
+                 suspend_seed: int | None = None):
     """run ops on the real scheduler under the controlled loop. `ops` is a list of op dicts, or a callable
     `chooser(world, i) -> op | None` (adaptive generation; the executed ops are returned for replay).
     Returns (world, checks, timed_out, executed_ops); checks[i] = invariants evaluated on the REAL state after op i."""
     world = World(cfg, names)
+    if suspend_seed is not None:
+        import random as _random
+        world.suspend_rng = _random.Random(suspend_seed)
     checks: list[dict] = []
     executed: list[dict] = []
 
@@ -660,6 +697,9 @@ def run_scenario(cfg: dict, ops, seed: int, timeout: float = 30.0, names: Names 
             executed.append(op)
             if op["op"] == "schedule":
                 job = world.make_job(op["job"], op["step"], op["tag"], op["req"], op.get("inputs"))
+                if op.get("probe_fits"):
+                    await world.compute_true_reqs(job, load_hw(op["req"]), op["targets"])
+                    op["fits_before"] = [world.fits(job.name, load_hw(op["req"]), ti)[0] for ti in op["targets"]]
                 await world.schedule(op["rid"], job, op["req"], op["targets"], op.get("filters"))
             elif op["op"] == "notify":
                 name = f"/s{op['step']}/{op['tag']}"
@@ -694,7 +734,7 @@ def run_scenario(cfg: dict, ops, seed: int, timeout: float = 30.0, names: Names 
 
     timed_out = False
     try:
-        run_controlled(main, seed, timeout=timeout)
+        run_controlled(main, seed, timeout=timeout, shuffle=shuffle)
     except (TimeoutError, asyncio.TimeoutError):
         timed_out = True
     return world, checks, timed_out, executed
